@@ -1,4 +1,5 @@
 mod alloc;
+mod c07x;
 mod c08;
 mod c12;
 mod c14;
@@ -335,6 +336,25 @@ fn run(cmd: &str, args: &[String], seed: u64, rep: &mut Report) {
                 .map(|s| s.split(',').map(|x| &*Box::leak(x.to_string().into_boxed_str())).collect())
                 .unwrap_or_default();
             exchange2::replay_unreal2(&l, &read_ndjson(arg(&args, "--in").unwrap()), seed, arg_u64(&args, "--reps", 1) as usize, &only, &mut rep);
+        }
+        "gamemaps" => {
+            let ctx = valve::Ctx {
+                layouts: layout::LayoutSet::load(arg(&args, "--layouts").unwrap()),
+                templates: template::Templates::load(arg(&args, "--templates").unwrap()),
+                drift: drift_ids(),
+            };
+            c07x::replay(&ctx, &read_ndjson(arg(&args, "--in").unwrap()), seed, arg_u64(&args, "--reps", 50) as usize, &mut rep);
+        }
+        "valve-trace" => {
+            let ctx = valve::Ctx {
+                layouts: layout::LayoutSet::load(arg(&args, "--layouts").unwrap()),
+                templates: template::Templates::load(arg(&args, "--templates").unwrap()),
+                drift: drift_ids(),
+            };
+            let mut trace = Vec::new();
+            valve::trace_random(&ctx, seed, arg_u64(&args, "--runs", 2000) as usize, &mut trace, &mut rep);
+            rep.extra.insert("events".into(), json!(trace.len()));
+            write_ndjson(arg(&args, "--out-trace").unwrap(), &trace);
         }
         "settings-real" => settings::real_sockets(&mut rep),
         "master" => master::replay(&read_ndjson(arg(&args, "--in").unwrap()), seed, arg_u64(&args, "--reps", 1) as usize, &mut rep),
